@@ -9,8 +9,8 @@
  * Besides being the implementation side of the exact-state comparison, the driver is the property
  * monitor on the real code: every live object is filled with a pattern that depends on its handle,
  * the patterns are verified before every free, on `v` and at `end` (content stability); every
- * returned pointer is checked for 8-byte alignment, for lying inside its chunk with obj_sz bytes of
- * room, and for not overlapping any live object.  A failed monitor prints a line starting with
+ * returned pointer is checked for 8-byte alignment, for lying inside one of the chunks the pool has
+ * recorded in its chunk list, with obj_sz bytes of room, and for not overlapping any live object.  A failed monitor prints a line starting with
  * "PROPERTY" (and the run goes on), so that the check can tell a violation of C20 from a mere
  * difference between model and code.
  *
@@ -248,12 +248,22 @@ int main(void)
             if (nhnds == caphnds) { caphnds = caphnds ? caphnds * 2 : 1024; hnds = realloc(hnds, caphnds * sizeof *hnds); }
             size_t h = nhnds++;
             long c = chunk_of(p);
+            if (c < 0 && mp->chunk_list != NULL) {
+                /* not in a chunk seen before: take over the chunks the pool has recorded since (the memory it owns) */
+                while (nbases < mp->chunk_list_cnt) {
+                    char *b = mp->chunk_list[nbases];
+                    if (nbases == capbases) { capbases = capbases ? capbases * 2 : 256; bases = realloc(bases, capbases * sizeof *bases); }
+                    if (b == NULL || (uintptr_t)b % cmi_pagesize() != 0) printf("PROPERTY chunk %zu does not start on a page boundary\n", nbases);
+                    bases[nbases++] = b;
+                }
+                c = chunk_of(p);
+            }
             if (c < 0) {
-                /* first object of a chunk not seen before: its address is the chunk base */
+                /* the pool handed out memory that lies in none of its chunks; go on with it as a pseudo chunk */
+                printf("PROPERTY outside handle=%zu is not inside any chunk of the pool\n", h);
                 if (nbases == capbases) { capbases = capbases ? capbases * 2 : 256; bases = realloc(bases, capbases * sizeof *bases); }
                 bases[nbases] = p;
                 c = (long)nbases++;
-                if ((uintptr_t)p % cmi_pagesize() != 0) printf("PROPERTY chunk %ld does not start on a page boundary\n", c);
             }
             size_t off = (size_t)((char *)p - bases[c]);
             /* property monitors on the real pointer */
